@@ -379,6 +379,12 @@ func TestVerif_C08(t *testing.T) {
 		} else {
 			stream = detStream(rng, cfg, nf, rng.PickInt(0, 3))
 		}
+		blob := idx%5 == 2
+		if blob {
+			// a scene wholly at or below the threshold (border included) with a blinking warm
+			// blob: the variant's border / cold pixels must not decide which path runs
+			stream = blobStream(rng, cfg, rng.Range(6, 40), rng.PickInt(0, 0, 5))
+		}
 		// variant
 		variant := make([]detFrame, len(stream))
 		changed := 0
@@ -455,6 +461,9 @@ func TestVerif_C08(t *testing.T) {
 			c.Count("motion_frames", int64(motion))
 			c.Count("recordings", int64(a.sink.recs))
 			c.Count("pairs_"+mode, 1)
+			if blob {
+				c.Count("blinking_blob_pairs", 1)
+			}
 			c.Seen("classes", fmt.Sprintf("%s dyn=%v edge=%d", mode, cfg.Dynamic, cfg.Edge))
 			if changed > 0 && motion > 0 {
 				c.Nontrivial(vNewHash().Str(cfg.String()).U64(a.sink.h.Sum()).Int(changed).U64(uint64(idx)).Sum())
